@@ -150,6 +150,7 @@ var allowUninit = []string{
 	"internal/cpu.*", "runtime.*", "internal/godebug.*", "sync.*", "internal/race.*",
 	"net/http.NoBody",                    // var NoBody = noBody{}: the zero value is the initial value
 	"os.Stderr", "os.Stdout", "os.Stdin", // only ever passed to logging, which is stubbed
+	"net/http.use121", // GODEBUG httpmuxgo121 unset: false
 }
 
 func loadModule(module string, scratch string, extra map[string]string, extraPatterns []string) (*Loaded, error) {
@@ -207,6 +208,9 @@ func loadModule(module string, scratch string, extra map[string]string, extraPat
 		}
 	})
 	ip := interp.NewProgram(prog, sizes, initWhitelist, initPrefixes, allowUninit)
+	ip.InitValues = map[string]interface{}{
+		"net/http.maxSlice": int(8), // var maxSlice int = 8 (routing tree: slice-to-map threshold)
+	}
 	return &Loaded{
 		Module: module, ModulePath: mpath, ModuleDir: mdir,
 		Prog: ip, SSA: prog, Pkgs: byPath, Overlay: ov,
